@@ -20,5 +20,5 @@ package decision
 //@   ensures old(r.RequestContext.err) == nil ==> ret0 == nil && wh.n == old(wh.n) + 1 && wh.arg0[old(wh.n)] == old(r.rw) && wh.arg1[old(wh.n)] == old(r.responseCode)
 //@   ensures old(r.RequestContext.err) != nil && headerGet(old(r.RequestContext.upstreamHeaders), "WWW-Authenticate", old(hver)) != "" ==> hset.n > old(hset.n)
 //@   loop 1 invariant hadd.n - atloop(hadd.n) == idx + 1
-//@   assert at call Del#1: mapnext.n > old(mapnext.n) && iface(callarg1) == mapnext.arg0[mapnext.n - 1]
-//@   assert at call Add#1: iface(callarg1) == mapnext.arg0[mapnext.n - 1]
+//@   assert at call Del#1@43de8747.1: mapnext.n > old(mapnext.n) && iface(callarg1) == mapnext.arg0[mapnext.n - 1]
+//@   assert at call Add#1@c683a7d6.1: iface(callarg1) == mapnext.arg0[mapnext.n - 1]
